@@ -5,25 +5,22 @@ import RV.Proofs.BufferMerge
 namespace RV.Buffer
 open Gen.Buffer
 
-theorem region_mid (p x q : Bytes) : region (p ++ x ++ q) p.length (p.length + x.length) = x := by
-  unfold region
-  rw [List.append_assoc, List.drop_left, show p.length + x.length - p.length = x.length by omega, List.take_left]
-
-theorem overwrite_mid (p x q y : Bytes) (h : y.length = x.length) :
-    overwrite (p ++ x ++ q) p.length y = p ++ y ++ q := by
-  unfold overwrite
-  have e1 : (p ++ x ++ q).take p.length = p := by rw [List.append_assoc, List.take_left]
-  have e2 : (p ++ x ++ q).drop (p.length + y.length) = q := by
-    rw [h, ← List.length_append, List.drop_left]
-  rw [e1, e2]
-
-/-- `merge` on a buffer whose two adjacent runs are encoded slice lists. -/
+/-- `merge` on a buffer whose two adjacent runs are encoded slice lists: the in-place
+loop leaves the slice-level merge in the region and touches nothing else. -/
 theorem merge_enc (less : Bytes → Bytes → Bool) (pre post : Bytes) (L R : List Bytes)
     (hb : pre.length + (encAll L).length + (encAll R).length < 2 ^ 62) :
-    merge less (pre ++ encAll L ++ encAll R ++ post) (encAll L) (encAll R) pre.length
+    merge less (pre ++ encAll L ++ encAll R ++ post) pre.length (pre.length + (encAll L).length)
       (pre.length + (encAll L).length + (encAll R).length) =
       .ok (pre ++ encAll (mergeSl less L R) ++ post) := by
   unfold merge
+  have hr1 : region (pre ++ encAll L ++ encAll R ++ post) pre.length (pre.length + (encAll L).length) = encAll L := by
+    rw [List.append_assoc (pre ++ _)]
+    exact region_mid pre _ _
+  have hr2 : region (pre ++ encAll L ++ encAll R ++ post) (pre.length + (encAll L).length)
+      (pre.length + (encAll L).length + (encAll R).length) = encAll R := by
+    have := region_mid (pre ++ encAll L) (encAll R) post
+    rwa [List.length_append] at this
+  simp only [hr1, hr2]
   by_cases hL : L = []
   · subst hL
     simp only [encAll_nil, List.length_nil, beq_self_eq_true, Bool.true_or, if_true, mergeSl, List.append_nil]
@@ -38,12 +35,8 @@ theorem merge_enc (less : Bytes → Bytes → Bool) (pre post : Bytes) (L R : Li
       have e2 : ((encAll R).length == 0) = false := by simpa using h2
       simp only [e1, e2, Bool.or_self, Bool.false_eq_true, if_false]
       have hgeL := encAll_length_ge L; have hgeR := encAll_length_ge R
+      rw [mergeInPlace_eq less _ pre (encAll L) (encAll R) post (encAll L) rfl hb]
       rw [mergeLoop_enc less _ hb L R _ pre.length (by omega) rfl]
-      simp only
-      have hlen := mergeSl_encLen less L R
-      have hd : pre ++ encAll L ++ encAll R ++ post = pre ++ (encAll L ++ encAll R) ++ post := by simp
-      rw [hd, overwrite_mid _ _ _ _ (by rw [hlen, List.length_append])]
-      rw [if_pos (by simp only [List.length_append]; omega)]
 
 /-! ### the recursive sort over chunk offsets -/
 
@@ -213,18 +206,6 @@ theorem sortRec_spec (less : Bytes → Bytes → Bool) (cs : List (List Bytes)) 
             (pre ++ encAll (mergeRange less cs f lo mid) ++ encAll (mergeRange less cs f mid hi) ++ post).length := by
         simp only [List.length_append]; omega
       rw [if_pos hcond]
-      have hr1 : region (pre ++ encAll (mergeRange less cs f lo mid) ++ encAll (mergeRange less cs f mid hi) ++ post)
-          pre.length (pre.length + (encAll (mergeRange less cs f lo mid)).length) =
-          encAll (mergeRange less cs f lo mid) := by
-        rw [List.append_assoc (pre ++ _)]
-        exact region_mid pre _ _
-      have hr2 : region (pre ++ encAll (mergeRange less cs f lo mid) ++ encAll (mergeRange less cs f mid hi) ++ post)
-          (pre.length + (encAll (mergeRange less cs f lo mid)).length)
-          (pre.length + (encAll (mergeRange less cs f lo mid)).length + (encAll (mergeRange less cs f mid hi)).length) =
-          encAll (mergeRange less cs f mid hi) := by
-        have := region_mid (pre ++ encAll (mergeRange less cs f lo mid)) (encAll (mergeRange less cs f mid hi)) post
-        rwa [List.length_append] at this
-      rw [hr1, hr2]
       exact merge_enc less pre post _ _ (by omega)
 
 end RV.Buffer
